@@ -1,6 +1,8 @@
 import TieD.ReachProofs
 import TieD.SumProofs
 import TieD.UpdateProofs
+import TieD.ConcatProofs
+import TieD.StackProofs
 /-!
 # TIED on every reachable diagram — no shape hypothesis left
 
@@ -53,5 +55,23 @@ theorem TIED_chain {V : Type} [Add V] [Zero V] (units : List ℕ) (C : ℕ) :
       = (unitsI (chain (V := V) units C).units, ((chain (V := V) units C).root : Int), nodesOf (chain (V := V) units C).levels, childOf (chain (V := V) units C).levels,
          adderOf (chain (V := V) units C).levels, ((chain (V := V) units C).diameter : Int)) :=
   chain_eq units C
+
+/-- `ADD.concatenate` as written (template: `np.pad` of every operand to the largest diameter, levels one after the other, the EXISTING nodes of each operand's last
+level re-routed to the root of the next operand; the result object is created with the constructor's 2 candidates), on reachable operands: the fields of the model's
+`Diagram.concatenate`, to which `C10_concat` applies -/
+theorem TIED_concat {V : Type} [AddCommMonoid V] (els : List (Diagram V)) (d : Diagram V) (hr : ∀ e ∈ els, Reach e) (h : concatenate els = .ok d) :
+    letI : Inhabited V := ⟨0⟩
+    GenD.add_concatenate (0 : V) (2 : Int) (els.map fld) = fld d :=
+  concat_eq els d hr h
+
+/-- `ADD.stack` as written (template: the header tree over the factor units written through slice assignments, the elements side by side with their child pointers shifted by
+the running diameter offsets, the last header level routed to the elements' roots; NumPy's shape rules for slice assignment and `np.concatenate(..., out=)` in the vocabulary),
+on reachable elements with 2 candidates and equally many units (the side conditions of `Reach.stack`; `compile` passes copies of ONE chain): the translated method succeeds and
+returns exactly the fields of the model's `stack` -/
+theorem TIED_stack {V : Type} [AddCommMonoid V] (factors : List ℕ) (els : List (Diagram V)) (d : Diagram V) (n : ℕ) (hr : ∀ e ∈ els, Reach e)
+    (hside : ∀ e ∈ els, e.C = 2 ∧ e.units.length = n) (h : stack factors els = .ok d) :
+    letI : Inhabited V := ⟨0⟩
+    GenD.add_stack (0 : V) (unitsI factors) (els.map fld) (2 : Int) = .ok (fld d) :=
+  stack_eq factors els d n hr hside h
 
 end DsProofs.TieD
